@@ -31,6 +31,15 @@ func runC13(r *rt.Run, tier string) {
 	disk.DrawProfile()
 	faulty := t.Bool(1, 4, "config.faulty")
 	badLo, badHi := -1, -1
+	transient := false
+	if faulty && t.Bool(1, 3, "fault.transient") {
+		// one ReadAt call fails once (EIO), the disk is healthy before and after;
+		// the iterator retries the failed call, as a caller would
+		transient = true
+		faulty = false
+		disk.FailOnceAtCall(1 + t.Draw(2+3*len(ms), "fault.call"))
+		r.Stats["config.transient"]++
+	}
 	if faulty && len(img) > 8 {
 		r.Stats["config.faulty"]++
 		// place the bad range inside a header or inside member data
@@ -56,10 +65,14 @@ func runC13(r *rt.Run, tier string) {
 	if disk.EOFEager {
 		prof = "eof-eager"
 	}
+	if transient {
+		prof += "/transient-retry"
+	}
 	var iterTask *rt.Task
 	var readers []*rt.Task
 	returned := 0
 	nextOverlapped := false
+	retriedNext := false
 	nextCalls := 0
 
 	readerTask := func(j int, e *deb.ArEntry, m *arMember) func() {
@@ -149,6 +162,9 @@ func runC13(r *rt.Run, tier string) {
 	var loadErr, nextErr error
 	iterTask = r.Go("I", func() {
 		ar, err := deb.LoadAr(disk)
+		if err != nil && transient {
+			ar, err = deb.LoadAr(disk)
+		}
 		if err != nil {
 			loadErr = err
 			return
@@ -156,6 +172,12 @@ func runC13(r *rt.Run, tier string) {
 		for i := 0; i <= len(ms)+2; i++ {
 			e, err := ar.Next()
 			nextCalls++
+			if err != nil && err != io.EOF && transient && !retriedNext {
+				retriedNext = true
+				r.Probe("Next-retried-after-transient-error")
+				e, err = ar.Next()
+				nextCalls++
+			}
 			if err != nil {
 				nextErr = err
 				return
@@ -175,7 +197,9 @@ func runC13(r *rt.Run, tier string) {
 				r.Violate("C13/metadata-mismatch", prof+"/data-size", "member %d: Data reader missing or of wrong size", j)
 				continue
 			}
-			readers = append(readers, r.Go(fmt.Sprintf("R%d", j), readerTask(j, e, m)))
+			if !transient {
+				readers = append(readers, r.Go(fmt.Sprintf("R%d", j), readerTask(j, e, m)))
+			}
 			if j >= 2 && len(ms[j-1].Data)%2 == 1 {
 				r.Probe("third-member-after-an-odd-one")
 			}
@@ -266,5 +290,5 @@ func init() {
 		},
 		Assumptions: []string{"per-operation equality with the sequential member-list model is the complete check because iterator and member readers are independent objects over one immutable ReaderAt (no linearizability search needed)"},
 	})
-	propProbes["C13"] = []string{"zero-length-member", "odd-member-followed-by-another", "16-byte-name", "third-member-after-an-odd-one", "eof-eager-full-read-at-end-of-file", "reader-op-overlapped-a-Next", "odd-last-member-without-pad", "blank-numeric-column", "data-looks-like-header", "name-with-trailing-slash", "name-with-interior-slash"}
+	propProbes["C13"] = []string{"zero-length-member", "odd-member-followed-by-another", "16-byte-name", "third-member-after-an-odd-one", "eof-eager-full-read-at-end-of-file", "reader-op-overlapped-a-Next", "odd-last-member-without-pad", "blank-numeric-column", "data-looks-like-header", "name-with-trailing-slash", "name-with-interior-slash", "zero-padded-numeric-columns", "Next-retried-after-transient-error"}
 }
